@@ -717,6 +717,30 @@ class FD:
             kwargs = {k.arg: self.eval(k.value, env) for k in e.keywords}
             kwargs.update(star_kwargs)
             return self.calls[name](*args, **kwargs)
+        if name in ('setattr', 'getattr', 'hasattr', 'delattr') and name not in env and len(e.args) >= 2:
+            # reflection on model objects with a concrete attribute name
+            args = [self.eval(a, env) for a in e.args]
+            o, attr = args[0], args[1]
+            if isinstance(o, Obj) and isinstance(attr, str):
+                if name == 'setattr':
+                    o.attrs[attr] = args[2]
+                    return None
+                if name == 'hasattr':
+                    return attr in o.attrs or ('method:' + attr) in o.attrs or (
+                        '__classdef__' in o.attrs and self.class_method(o, attr) is not None)
+                if name == 'delattr':
+                    if isinstance(o, ClassObj):
+                        o.own.pop(attr, None)
+                    else:
+                        o.attrs.pop(attr, None)
+                    return None
+                try:
+                    return self.eval(ast.Attribute(value=_Lit(o), attr=attr, ctx=ast.Load()), env)
+                except Raised as r:
+                    if r.kind == 'AttributeError' and len(args) >= 3:
+                        return args[2]
+                    raise
+            raise Inconclusive('fdeval: %s on %r' % (name, o))
         if name in self.functions:
             args = [self.eval(a, env) for a in e.args]
             kwargs = {k.arg: self.eval(k.value, env) for k in e.keywords}
